@@ -123,9 +123,14 @@ class SimErrorCalculator(ErrorCalculator):
     mode: 'mix' (zero / tie / uniform by keyed class draw), 'equal' (all 1.0), 'zero' (all 0.0).
     With use_epoch the evaluation counter enters the key (only in runs that are never resumed)."""
 
-    def __init__(self, key, p_zero=0.3, p_tie=0.1, mode="mix", use_epoch=False, bias=None, domain=None):
+    def __init__(self, key, p_zero=0.3, p_tie=0.1, mode="mix", use_epoch=False, bias=None, domain=None, scale=1.0, near=None):
         super().__init__(print_level=100, log_level=100)
         self.key = key
+        # scale: every answer is multiplied by it (benefits of order 1e-12 or 1e7 are as legal as benefits of order 1);
+        # near: None | (margin, p): with probability p the answer is margin * (1 -+ 2^-27) - just below / just above the
+        # margin fraction of a tie-class answer (which is the largest answer whenever one is present)
+        self.scale = scale
+        self.near = near
         # bias: None | ("right" | "left", k): answers of the dimension-wise intervals are weighted by the interval's relative
         # position to the power k, which makes lopsided refinement trees (the ones rebalancing rotates near the top)
         self.bias = bias
@@ -156,12 +161,26 @@ class SimErrorCalculator(ErrorCalculator):
             return 0.0
         if r < self.p_zero + self.p_tie:
             return 1.0
+        near = getattr(self, "near", None)
+        if near and r < self.p_zero + self.p_tie + near[1]:
+            return near[0] * (1.0 - 2.0 ** -27 if H(self.key, "side", q) < 0.5 else 1.0 + 2.0 ** -27)
         return H(self.key, "val", q)
 
     def calc_error(self, refine_object, norm, volume_weights=None):
         self.asked += 1
-        v = self.answer(self.question(refine_object))
+        v = self.answer(self.question(refine_object)) * getattr(self, "scale", 1.0)
         bias = getattr(self, "bias", None)
+        if bias and bias[0] == "focus":
+            # sharply localised driver: the interval (area) that contains the target point answers 1, everything else is damped
+            if hasattr(refine_object, "this_dim"):
+                d = int(refine_object.this_dim)
+                lo, hi = self.domain[0][d], self.domain[1][d]
+                x = lo + (hi - lo) * bias[1][d]
+                inside = float(refine_object.start) <= x < float(refine_object.end)
+            else:
+                inside = all(float(s) <= self.domain[0][d] + (self.domain[1][d] - self.domain[0][d]) * bias[1][d] < float(e)
+                             for d, (s, e) in enumerate(zip(refine_object.start, refine_object.end)))
+            return getattr(self, "scale", 1.0) if inside else v * bias[2]
         if bias and hasattr(refine_object, "this_dim") and getattr(self, "domain", None):
             d = int(refine_object.this_dim)
             lo, hi = self.domain[0][d], self.domain[1][d]
